@@ -154,9 +154,31 @@ def build_projects():
     return out
 
 
+def outside_projects():
+    """Steps whose working directory lies outside the project root (the project is `proj/` inside
+    the scratch directory, the working directories are its siblings)."""
+    out = []
+    for stepwd, up in (("../side", "../proj"), ("../side/deep", "../../proj"), ("sub/../../side", "../proj")):
+        inp, outp = f"{up}/src.txt", f"{up}/out/o.txt"
+        files = {
+            "plan.py": script([["static", "src.txt"],
+                               ["step", f"tr S {inp} -- {outp}", {"inp": [inp], "out": [outp], "workdir": stepwd}]]),
+            "src.txt": "src\n", "sub/": "", "../side/deep/": "",
+        }
+        out.append((f"outside|{stepwd}", files, ".", stepwd, inp, outp))
+    return out
+
+
 def run_builds(acc):
-    for name, files, subdir, stepwd, inp, outp in build_projects():
-        w = fresh_world(files, "c20b")
+    from ..harness import World
+    from ..runner import scratch_dir
+
+    for name, files, subdir, stepwd, inp, outp in build_projects() + outside_projects():
+        if name.startswith("outside"):
+            w = World(os.path.join(scratch_dir("c20o"), "proj"))
+            w.materialize(files)
+        else:
+            w = fresh_world(files, "c20b")
         root = w.root
 
         def on_start(sim, proc, root=root):
